@@ -225,7 +225,7 @@ pub fn property() -> Property {
                 text_f: Some(instants_text),
                 cases_quick: 12_000,
                 cases_thorough: 400_000,
-                max_choices: 380,
+                max_choices: 480,
             },
             SubCheck {
                 name: "rare",
@@ -234,7 +234,7 @@ pub fn property() -> Property {
                 text_f: Some(instants_text),
                 cases_quick: 6_000,
                 cases_thorough: 60_000,
-                max_choices: 60,
+                max_choices: 280,
             },
             SubCheck {
                 name: "far",
